@@ -74,6 +74,27 @@ func TestC10_Regress(t *testing.T) {
 	}
 }
 
+// F19 / F21: operations that RFC 6902 makes an error must fail (and the reference agrees that they are errors)
+func TestC10_RegressInapplicable(t *testing.T) {
+	st := statsFor("C10")
+	doc := `{"arr":["a","b","c"],"name":"v","o":{"a":1}}`
+	for _, ops := range []string{
+		`[{"op":"remove","path":"/arr/-1"}]`, `[{"op":"copy","from":"/name","path":"/arr/-1"}]`, `[{"op":"add","path":"/arr/-2","value":"x"}]`,
+		`[{"op":"remove","path":"/arr/01"}]`, `[{"op":"replace","path":"/arr/+1","value":"x"}]`, `[{"op":"add","path":"/arr/00","value":"x"}]`,
+		`[{"op":"move","from":"/name","path":"/arr/-0"}]`,
+		`[{"op":"test","path":"/o","value":{"a":1,"b":2}}]`, `[{"op":"remove","path":"/o/a"},{"op":"test","path":"/o","value":{"id":"k1"}}]`,
+	} {
+		got, gerr, _, werr := applyBoth(t, doc, `[{"action":"ietf-json-patch","patches":`+ops+`}]`)
+		if werr == nil {
+			t.Fatalf("harness: reference applies regression case %s", ops)
+		}
+		if gerr == nil {
+			t.Errorf("C10 regress F19/F21: %s applied to %s gives %s, RFC 6902 makes it an error (%v)", ops, doc, got, werr)
+		}
+		st.Case(true, "regress:inapplicable:"+ops, "regress")
+	}
+}
+
 // F18: 'test' of equal numbers in different spellings (the patch text matters here, so it is given literally)
 func TestC10_RegressNumberSpelling(t *testing.T) {
 	st := statsFor("C10")
